@@ -12,17 +12,18 @@ open Jesse Jesse.Eng Jesse.Gen Jesse.Acc
 
 variable {M : Type}
 
-def SSame (e e' : Engine M) : Prop := e'.stores = e.stores
+/-- same candle stores, same configuration -/
+def SSame (e e' : Engine M) : Prop := e'.stores = e.stores ∧ e'.cfg = e.cfg
 
-theorem SSame.refl (e : Engine M) : SSame e e := rfl
-theorem SSame.trans {a b c : Engine M} (h1 : SSame a b) (h2 : SSame b c) : SSame a c := by
-  unfold SSame at *; rw [h2, h1]
-theorem SSame.of_w {e e' : Engine M} (h : e'.stores = e.stores) : SSame e e' := h
+theorem SSame.refl (e : Engine M) : SSame e e := ⟨rfl, rfl⟩
+theorem SSame.trans {a b c : Engine M} (h1 : SSame a b) (h2 : SSame b c) : SSame a c :=
+  ⟨h2.1.trans h1.1, h2.2.trans h1.2⟩
+theorem SSame.of_w {e e' : Engine M} (h : e'.stores = e.stores ∧ e'.cfg = e.cfg) : SSame e e' := h
 
-theorem logE_ss (e : Engine M) (ev : Event) : SSame e (logE e ev) := SSame.of_w rfl
+theorem logE_ss (e : Engine M) (ev : Event) : SSame e (logE e ev) := SSame.of_w ⟨rfl, rfl⟩
 theorem fail_ss (e : Engine M) (k : Err) : SSame e (fail e k) := by
-  unfold fail; split <;> exact SSame.of_w rfl
-theorem setStrat_ss (e : Engine M) (r : Nat) (f : StratState M → StratState M) : SSame e (setStrat e r f) := SSame.of_w rfl
+  unfold fail; split <;> exact SSame.of_w ⟨rfl, rfl⟩
+theorem setStrat_ss (e : Engine M) (r : Nat) (f : StratState M → StratState M) : SSame e (setStrat e r f) := SSame.of_w ⟨rfl, rfl⟩
 
 theorem foldl_ss {α} (g : Engine M → α → Engine M) (hg : ∀ e x, SSame e (g e x)) (l : List α) (e : Engine M) :
     SSame e (l.foldl g e) := by
@@ -36,11 +37,11 @@ theorem createOrder_ss (e : Engine M) (sym : Nat) (a : ApiCall) (via : Option Vi
   · exact SSame.refl _
   · split
     · rename_i k w' h
-      exact SSame.trans (show SSame e { e with w := w' } from rfl) (fail_ss _ _)
+      exact SSame.trans (show SSame e { e with w := w' } from ⟨rfl, rfl⟩) (fail_ss _ _)
     · rename_i w' h
       exact SSame.trans (show SSame e { e with w := w', via := e.via ++ [via], storage := upd e.storage sym (fun x => x ++ [e.w.orders.length]),
                                                  toExecute := if a.type = .market then e.toExecute ++ [e.w.orders.length] else e.toExecute }
-                        from rfl) (logE_ss _ _)
+                        from ⟨rfl, rfl⟩) (logE_ss _ _)
 
 theorem brokerSubmit_ss (e : Engine M) (sym : Nat) (r : Except Err ApiCall) (via : Option Via) :
     SSame e (brokerSubmit e sym r via) := by
@@ -54,7 +55,7 @@ theorem brokerSubmit_ss (e : Engine M) (sym : Nat) (r : Except Err ApiCall) (via
 theorem cancelOrder_ss (e : Engine M) (id : Nat) : SSame e (cancelOrder e id) := by
   unfold cancelOrder
   split
-  · exact SSame.trans (show SSame e { e with w := Acc.cancel e.w id } from rfl) (logE_ss _ _)
+  · exact SSame.trans (show SSame e { e with w := Acc.cancel e.w id } from ⟨rfl, rfl⟩) (logE_ss _ _)
   · exact SSame.refl _
 
 section strategy
@@ -89,7 +90,7 @@ theorem runHook_ss (e : Engine M) (r : Nat) (name : String) (h : M → Decl → 
   · exact SSame.refl _
   · exact SSame.trans (setStrat_ss _ _ _) (logE_ss _ _)
 
-theorem resetStrategy_ss (e : Engine M) (r : Nat) : SSame e (resetStrategy e r) := rfl
+theorem resetStrategy_ss (e : Engine M) (r : Nat) : SSame e (resetStrategy e r) := ⟨rfl, rfl⟩
 
 end strategy
 
@@ -168,8 +169,8 @@ theorem broadcast_ss (e : Engine M) (r : Nat) : SSame e (broadcast e r) := by
 /-- right-composition forms (the goal's shape drives the unification) -/
 theorem ext_then {a b : Engine M} (f : Engine M → Engine M) (hf : ∀ x, SSame x (f x)) (h : SSame a b) : SSame a (f b) :=
   SSame.trans h (hf b)
-theorem ext_same_w {a b c : Engine M} (hw : c.stores = b.stores) (h : SSame a b) : SSame a c := by
-  unfold SSame at *; rw [hw]; exact h
+theorem ext_same_w {a b c : Engine M} (hw : c.stores = b.stores ∧ c.cfg = b.cfg) (h : SSame a b) : SSame a c := by
+  unfold SSame at *; rw [hw.1, hw.2]; exact h
 
 theorem executeCancel_ss (e : Engine M) (r : Nat) : SSame e (executeCancel e r) := by
   unfold executeCancel
@@ -181,7 +182,7 @@ theorem executeCancel_ss (e : Engine M) (r : Nat) : SSame e (executeCancel e r) 
     · apply ext_then (fun x => logE x _) (fun x => logE_ss x _)
       apply ext_then (fun x => broadcast x r) (fun x => broadcast_ss x r)
       apply ext_then (fun x => resetStrategy x r) (fun x => resetStrategy_ss x r)
-      apply ext_same_w (b := (Acc.getD e.w.active (routeOf e r).sym).foldl (fun e id => cancelOrder e id) e) rfl
+      apply ext_same_w (b := (Acc.getD e.w.active (routeOf e r).sym).foldl (fun e id => cancelOrder e id) e) ⟨rfl, rfl⟩
       exact foldl_ss _ (fun e' id => cancelOrder_ss e' id) _ _
 
 theorem openExitRows_ss (e : Engine M) (r : Nat) (rows : Rows) (isStop : Bool) : SSame e (openExitRows e r rows isStop) := by
@@ -262,7 +263,7 @@ theorem executeOrder_ss (e : Engine M) (id : Nat) : SSame e (executeOrder u e id
   unfold executeOrder
   dsimp only
   have h1 : SSame e (logE { e with w := Acc.execute e.w id } (Event.fill id e.time (orderOf e id).price (orderOf e id).qty)) :=
-    SSame.trans (show SSame e { e with w := Acc.execute e.w id } from rfl) (logE_ss _ _)
+    SSame.trans (show SSame e { e with w := Acc.execute e.w id } from ⟨rfl, rfl⟩) (logE_ss _ _)
   have h4 := SSame.trans h1 (afterFill_ss u _ (orderOf e id).sym e.w.trades.length id)
   split
   · exact SSame.refl _
@@ -278,7 +279,7 @@ end strategy2
 section run
 variable [Inhabited M] (u : UserStrategy M)
 
-theorem saveDaily_ss (e : Engine M) : SSame e (saveDaily e) := SSame.of_w rfl
+theorem saveDaily_ss (e : Engine M) : SSame e (saveDaily e) := SSame.of_w ⟨rfl, rfl⟩
 
 theorem pendingGo_ss (fuel : Nat) (e : Engine M) (i : Nat) : SSame e (executePendingMarketOrders.go u fuel e i) := by
   induction fuel generalizing e i with
@@ -288,7 +289,7 @@ theorem pendingGo_ss (fuel : Nat) (e : Engine M) (i : Nat) : SSame e (executePen
     split
     · exact SSame.refl _
     · split
-      · exact SSame.of_w rfl
+      · exact SSame.of_w ⟨rfl, rfl⟩
       · exact SSame.trans (executeOrder_ss u _ _) (ih _ _)
 
 theorem pending_ss (fuel : Nat) (e : Engine M) : SSame e (executePendingMarketOrders u fuel e) := by
@@ -382,12 +383,12 @@ theorem executeStrategy_ss (fuel : Nat) (e : Engine M) (r : Nat) : SSame e (exec
   unfold executeStrategy
   dsimp only
   have h2 : SSame e (check u fuel (beforeStep u e r) r) :=
-    SSame.trans (SSame.of_w rfl : SSame e (beforeStep u e r)) (check_ss u fuel _ r)
+    SSame.trans (SSame.of_w ⟨rfl, rfl⟩ : SSame e (beforeStep u e r)) (check_ss u fuel _ r)
   split
   · exact SSame.refl _
   · split
     · exact h2
-    · exact SSame.trans h2 (SSame.of_w rfl : SSame _ (afterStep u _ r))
+    · exact SSame.trans h2 (SSame.of_w ⟨rfl, rfl⟩ : SSame _ (afterStep u _ r))
 
 
 theorem terminate_ss (fuel : Nat) (e : Engine M) (r : Nat) : SSame e (terminate u fuel e r) := by
@@ -406,7 +407,7 @@ theorem terminate_ss (fuel : Nat) (e : Engine M) (r : Nat) : SSame e (terminate 
       · refine SSame.trans h3 (SSame.trans ?_ (brokerSubmit_ss _ _ _ _))
         split
         · refine SSame.trans ?_ (foldl_ss (fun e id => cancelOrder e id) (fun e id => cancelOrder_ss e id) _ _)
-          exact SSame.of_w rfl
+          exact SSame.of_w ⟨rfl, rfl⟩
         · exact SSame.refl _
       · split
         · exact SSame.trans h3 (executeCancel_ss _ _)
@@ -424,7 +425,7 @@ theorem routesStep_ss (fuel : Nat) (e : Engine M) (i b : Nat) : SSame e (routesS
     dsimp only
     split
     · exact SSame.refl _
-    · refine SSame.trans (?_ : SSame x (if (routeOf x r).tf = 1 ∨ b % (routeOf x r).tf = 0 then executeStrategy u fuel x r else x)) (SSame.of_w rfl)
+    · refine SSame.trans (?_ : SSame x (if (routeOf x r).tf = 1 ∨ b % (routeOf x r).tf = 0 then executeStrategy u fuel x r else x)) (SSame.of_w ⟨rfl, rfl⟩)
       split
       · exact executeStrategy_ss u _ _ _
       · exact SSame.refl _
